@@ -165,18 +165,28 @@ func fileAnnotationCompareTo(a FileAnnotation, b FileAnnotation) int {
 }
 
 // hash returns a hash value that uniquely identifies the given FileAnnotation.
+//
+// Every field is written with a length prefix so that the boundaries between fields are
+// unambiguous. Without the prefixes, distinct annotations such as (line 1, column 23) and
+// (line 12, column 3) would produce the same hash and one of them would be dropped.
 func hash(fileAnnotation FileAnnotation) string {
 	path := ""
 	if fileInfo := fileAnnotation.FileInfo(); fileInfo != nil {
 		path = fileInfo.ExternalPath()
 	}
 	hash := sha256.New()
-	_, _ = hash.Write([]byte(path))
-	_, _ = hash.Write([]byte(strconv.Itoa(fileAnnotation.StartLine())))
-	_, _ = hash.Write([]byte(strconv.Itoa(fileAnnotation.StartColumn())))
-	_, _ = hash.Write([]byte(strconv.Itoa(fileAnnotation.EndLine())))
-	_, _ = hash.Write([]byte(strconv.Itoa(fileAnnotation.EndColumn())))
-	_, _ = hash.Write([]byte(fileAnnotation.Type()))
-	_, _ = hash.Write([]byte(fileAnnotation.Message()))
+	for _, field := range []string{
+		path,
+		strconv.Itoa(fileAnnotation.StartLine()),
+		strconv.Itoa(fileAnnotation.StartColumn()),
+		strconv.Itoa(fileAnnotation.EndLine()),
+		strconv.Itoa(fileAnnotation.EndColumn()),
+		fileAnnotation.Type(),
+		fileAnnotation.Message(),
+	} {
+		_, _ = hash.Write([]byte(strconv.Itoa(len(field))))
+		_, _ = hash.Write([]byte{':'})
+		_, _ = hash.Write([]byte(field))
+	}
 	return string(hash.Sum(nil))
 }
